@@ -523,3 +523,52 @@ Theorem C11_filter_bit_refuted :
     end
   end.
 Proof. vm_compute. repeat split. Qed.
+
+(* ------------------------------------------------------------------------------------- *)
+(* 6. Seek / SeekForPrev / SeekToLast on the bytes of a block                             *)
+(* ------------------------------------------------------------------------------------- *)
+
+(* The table-level view (SSTFile.view) decodes blocks with SeekToFirst/Next (proved:
+   block_roundtrip) and then works on the entry lists; the real code runs Seek/SeekForPrev/
+   SeekToLast of block.Iterator on the bytes (binary search over the restart array, then a
+   linear scan). That these agree with the list-level positions is checked on every run by the
+   block scripts of the correspondence (bseek/bprev/blast/bnext against the real iterator), and
+   is stated here; it is not yet proved in general. *)
+Definition it_cur (it : bit) : option sentry := if it_valid it then it_entry it else None.
+
+Definition last_le (t : bytes) (es : list sentry) : option sentry :=
+  match find_le t (map sk es) with Some i => nth_error es i | None => None end.
+
+Definition C11_block_seek_statement : Prop :=
+  forall es d r t, wf_block es -> ascending es = true ->
+  encode_block es = Some d -> new_reader d = inl r ->
+  it_cur (fst (it_seek r it_new t)) = first_ge t es /\
+  it_cur (fst (it_seek_prev r it_new t)) = last_le t es /\
+  it_cur (it_seek_last r it_new) = Some (last es (mkS [] 0 None)).
+
+(* evidence on an 18-entry block (restart points at entries 0 and 16): every key, every key
+   followed by 0x00, every key with its last byte removed, and keys outside the range *)
+Example ex_block_seek :
+  match encode_block ex_block with
+  | Some d =>
+    match new_reader d with
+    | inl r =>
+      let targets := map sk ex_block ++ map (fun e => sk e ++ [0]) ex_block ++
+                     map (fun e => removelast (sk e)) ex_block ++ [[]; [0]; [107]; [255]] in
+      forallb (fun t =>
+        match it_cur (fst (it_seek r it_new t)), first_ge t ex_block with
+        | Some a, Some b => beq (sk a) (sk b) && (sseq a =? sseq b)
+        | None, None => true
+        | _, _ => false
+        end &&
+        match it_cur (fst (it_seek_prev r it_new t)), last_le t ex_block with
+        | Some a, Some b => beq (sk a) (sk b) && (sseq a =? sseq b)
+        | None, None => true
+        | _, _ => false
+        end) targets = true /\
+      it_cur (it_seek_last r it_new) = Some (last ex_block (mkS [] 0 None))
+    | inr _ => False
+    end
+  | None => False
+  end.
+Proof. vm_compute. split; reflexivity. Qed.
